@@ -73,7 +73,16 @@ func write(namespace string, key string, value any, ttl time.Time) {
 		return
 	}
 
-	cache[namespace].Write(key, &b, ttl)
+	ic, ok := cache[namespace]
+	if !ok {
+		// as read() does: a namespace nobody used yet is created on first use
+		initNamespace(namespace)
+		if ic, ok = cache[namespace]; !ok {
+			return
+		}
+	}
+
+	ic.Write(key, &b, ttl)
 }
 
 type trimmedT struct {
